@@ -27,7 +27,7 @@ Arguments fills : simpl never.
 Arguments truths : simpl never.
 Arguments delivered : simpl never.
 
-Lemma obs_no_truth e : obs_event e -> truth_of e = [] /\ deliv_of e = [].
+Lemma obs_no_truth e : quiet_event e -> truth_of e = [] /\ deliv_of e = [].
 Proof. destruct e; simpl; intros H; try contradiction; auto. Qed.
 Lemma boundary_no_truth e : boundary_event e -> truth_of e = [] /\ deliv_of e = [].
 Proof. destruct e; simpl; intros H; try contradiction; auto. Qed.
@@ -182,7 +182,7 @@ Proof.
   rewrite truths_app, delivered_app, truths_one, delivered_one, Et, Ed, H1, !app_nil_r. auto.
 Qed.
 
-Lemma deliv_inv_emit s e : obs_event e -> deliv_inv s -> deliv_inv (emit s e).
+Lemma deliv_inv_emit s e : quiet_event e -> deliv_inv s -> deliv_inv (emit s e).
 Proof.
   intros He [H1 H2]. destruct (obs_no_truth e He) as [Et Ed]. unfold deliv_inv, emit. cbn.
   rewrite truths_app, delivered_app, truths_one, delivered_one, Et, Ed, H1, !app_nil_r. auto.
@@ -192,7 +192,8 @@ Theorem deliv_inv_run c tape batches funds : deliv_inv (run c tape batches funds
 Proof.
   apply run_pres.
   - intros s e H. destruct (fail_fields s e) as [T [Pd _]]. eapply deliv_inv_ext; eauto.
-  - apply deliv_inv_emit.
+  - intros s e He. apply deliv_inv_emit. apply obs_quiet; exact He.
+  - intros s a kind r hold sw run. apply deliv_inv_emit. exact I.
   - intros s e He [H1 H2]. destruct (boundary_no_truth e He) as [Et Ed]. unfold deliv_inv, no_truth, flush, write. cbn.
     rewrite rev_app_distr, !rev_involutive, !truths_app, !delivered_app, !truths_one, !delivered_one. rewrite H1.
     unfold no_truth in H2. rewrite H2, Et, Ed. simpl. rewrite !app_nil_r. auto.
@@ -285,7 +286,8 @@ Proof.
   set (a0 := s_agents (init_sim c tape batches funds)).
   apply run_pres.
   - intros s e H. destruct (fail_fields s e) as [T [Pd [A _]]]. eapply hold_inv_ext; eauto.
-  - intros s e He H. apply hold_inv_emit_nonfill; auto. destruct (obs_no_truth e He) as [-> _]. reflexivity.
+  - intros s e He H. apply hold_inv_emit_nonfill; auto. destruct (obs_no_truth e (obs_quiet e He)) as [-> _]. reflexivity.
+  - intros s a kind r hold sw run H. apply hold_inv_emit_nonfill; auto.
   - intros s e He [H H2]. destruct (boundary_no_truth e He) as [Et Ed]. unfold hold_inv, no_truth, flush, write in *. cbn.
     split; auto. rewrite rev_app_distr, !rev_involutive, !fills_app.
     assert (F1 : fills (s_pending s) = []) by (unfold fills; rewrite H2; reflexivity).
@@ -468,6 +470,7 @@ Proof.
   intros Hnd. apply run_pres.
   - (* fail *) intros s e H. destruct (fail_fields s e) as [T [Pd [_ [_ [Se [Ev _]]]]]]. eapply switch_inv_ext; eauto.
   - (* emit *) intros s e He H. apply switch_inv_emit; auto; destruct e; simpl in He; try contradiction; intros; discriminate.
+  - (* callback *) intros s a kind r hold sw run H. apply switch_inv_emit; auto; intros; discriminate.
   - (* boundary *) intros s e He [N [A [B [C [D T]]]]]. unfold switch_inv, flush, write. cbn. repeat split; auto.
     + intros mk run sid Hin. apply in_app_iff in Hin. destruct Hin as [Hin|Hin]; [|eauto].
       exfalso. apply in_rev in Hin. apply in_app_iff in Hin. destruct Hin as [Hin|[Hin|[]]].
